@@ -19,7 +19,7 @@ RULE = ('one archive operation (set new / overwrite / delete / pop / update / cl
         'property (AtomicView) and with Lean model M8 state by state; sqlite: kills injected by strace at every write-class system call of the '
         'statement; non-trivial = case with at least 3 crash points')
 NCASES = {'quick': 112, 'thorough': 896}
-NSQL = {'quick': 5, 'thorough': 42}
+NSQL = {'quick': 6, 'thorough': 48}
 CONFIGS = [('file', 'pickle', {}), ('dir', 'pickle', {}), ('file', 'json', dict(protocol='json')), ('dir', 'json', dict(protocol='json')),
            ('dir', 'pickle', dict(compression=3)), ('file', 'source', dict(serialized=False)), ('dir', 'source', dict(serialized=False)), ('dir', 'pickle', {})]
 KEYS = {'pickle': ['a', 'b', 'k1', 7, 'p-q', (1, 2)], 'json': ['a', 'b', 'k1', 'p-q'], 'source': ['a', 'b', 'k1', 7]}
